@@ -24,8 +24,14 @@ def main():
             pass
     mod = importlib.import_module(f"props.{a.pid.lower()}")
     R = vlib.Run(a.pid, tier, seed, replay=a.replay)
+    import threading
+    threading.Thread(target=vlib._hard_watchdog, daemon=True).start()
     try:
         mod.run(R)
+    except vlib.Hang:   # the implementation never came back from a call: a finding with the last case as its replay
+        vlib.watch_disarm()
+        R.fail("implementation-hang", f"an implementation call did not return within {R.case_budget:.0f} s (per-case budget)",
+               {"last_case": R.last_key})
     except Exception as e:  # a crash of the harness is a red check, never a silent pass
         import traceback
         R.red.append("harness: " + "".join(traceback.format_exception_only(type(e), e)).strip()[:500])
